@@ -13,7 +13,7 @@ import ast
 from ..core import rule, AnalysisError
 from ..engine.facts import dotted, const, src, walk_func
 from ..engine import pattern as P
-from .common import calls
+from .common import calls, pn, access_paths
 from . import c18  # precedence (coding comment > input_encoding > utf-8) is registered for C20 there
 
 # construct -> (parsetree class, expression(s) the scanned code must include)
